@@ -7,6 +7,7 @@ RULE = ("contents over a 3-letter alphabet of length 0-4 under ALL segmentations
         "real BER encodings (primitive, flat definite, flat indefinite, nested, empty constructed), all pairs of a pool; plus random longer "
         "contents with random nestings; each compared with ==, cmp, partial_cmp, hash, and against plain slices (os.cmps); restricted "
         "strings through their Deref/PartialEq impls. non-trivial = both sides decoded.")
+CROSS = {'C16': 2000, 'C18': 1500}   # cross streams: samples of neighbouring properties' request streams (outcomes, model <-> implementation)
 EXHAUSTIVE = {"quick": False, "thorough": False}
 EXHAUSTIVE_NOTE = {"quick": "all segmentations into <= 3 segments of all contents of length <= 3 over {61,62,00}; 200k pairs", "thorough": "2M pairs"}
 ASSUMPTIONS = ["hash equality is observed with DefaultHasher only (the fix feeds octets one by one, which is chunking-independent for any Hasher)"]
